@@ -198,6 +198,70 @@ def recanon(s):
     return s
 
 
+def occurs(s, x):
+    if s == x:
+        return True
+    return isinstance(s, list) and any(occurs(y, x) for y in s)
+
+
+def push_ret(seq):
+    """`let x = if c {A} else {B}; Ok(f(x))` is `if c {A; Ok(f(a))} else {B; Ok(f(b))}`: when the value of a sequence
+    is an expression over its last (branching) step, the expression moves into the arms.  Canonical form for values
+    assembled after a branch or inside it."""
+    st, r = seq["steps"], seq["ret"]
+    if not st or not r or r[0] != "ok" or st[-1][0] not in ("ite", "switch"):
+        return seq
+    last = st[-1]
+    hole = ["v", last[1]]
+    if r[1] == hole or not occurs(r[1], hole):
+        return seq
+    memo = {}
+
+    def arm(s):
+        if id(s) not in memo:
+            if s["ret"] and s["ret"][0] == "ok":
+                memo[id(s)] = push_ret({"steps": s["steps"], "ret": ["ok", subst(r[1], hole, s["ret"][1])]})
+            else:
+                memo[id(s)] = s
+        return memo[id(s)]
+    if last[0] == "ite":
+        new = ["ite", last[1], last[2], arm(last[3]), arm(last[4])]
+    else:
+        new = ["switch", last[1], last[2], [[c, arm(s)] for c, s in last[3]], arm(last[4])]
+    return {"steps": st[:-1] + [new], "ret": ["ok", hole]}
+
+
+HOISTABLE = ("u", "bytes", "tag", "param_parser")
+
+
+def common_prefix(sa, sb):
+    """steps both arms start with (up to binder names): (prefix steps in sa's names, rest of sa, rest of sb renamed)"""
+    m = {}
+    n = 0
+    A, B = sa["steps"], sb["steps"]
+    def ren(x):
+        if isinstance(x, list):
+            if len(x) == 2 and x[0] == "v" and x[1] in m:
+                return ["v", m[x[1]]]
+            return [ren(y) for y in x]
+        if isinstance(x, dict):
+            return {k: ren(v) for k, v in x.items()}
+        return x
+    while n < len(A) and n < len(B) and A[n][0] == B[n][0] and A[n][0] in HOISTABLE:
+        a, b_ = A[n], B[n]
+        if a[0] == "tag":
+            if a != b_:
+                break
+        else:
+            if a[2:] != ren(b_[2:]):
+                break
+            m[b_[1]] = a[1]
+        n += 1
+    if n == 0:
+        return [], sa, sb
+    return A[:n], {"steps": A[n:], "ret": sa["ret"]}, {"steps": ren(B[n:]), "ret": ren(sb["ret"])}
+
+
 def eq_consts(c):
     """c is `x == k1 || x == k2 ...` over one scrutinee x and integer constants: (x, [k...]); else None"""
     def konst(x):
@@ -401,6 +465,15 @@ class Builder:
             nb.input_alias, nb.alias_at = self.input_alias, nb.cur
         return nb
 
+    def seen_tok(self, t):
+        """was t an earlier position of this input (in this builder or an enclosing one reading the same input)?"""
+        bld = self
+        while bld is not None:
+            if t in bld.hist:
+                return True
+            bld = bld.parent
+        return False
+
     def is_cur(self, s):
         """does sym s denote the current input position?"""
         return s == ["tok", self.cur] or (self.input_alias is not None and s == self.input_alias and self.alias_at == self.cur)
@@ -415,6 +488,8 @@ class Builder:
             v = fn(self)
             if self.ret is None:
                 self.ret = ["ok", v]
+            canon_seq = push_ret(self.seq())
+            self.steps, self.ret = canon_seq["steps"], canon_seq["ret"]
         except Fail as f:
             self.ret = ["err", f.kind, f.severity]
         except Opaque as o:
@@ -563,6 +638,9 @@ class Builder:
         cb = self._last_child
         if redundant_special_case(c, sa, sb):
             return self._splice(sb, cb)
+        # what both arms read first is read before the branch
+        pre, sa, sb = common_prefix(sa, sb)
+        self.steps.extend(pre)
         # a branch that only rejects is a guard
         if not sa["steps"] and sa["ret"] and sa["ret"][0] == "err" and sa["ret"][2] == "Error":
             self.guard(c, sa["ret"][1])
@@ -1111,6 +1189,10 @@ class Ev:
             if fp == "core::result::Result::Err":
                 kind, sev = self.err_kind(e["args"][0])
                 b.fail(kind, sev)
+            tok_ = self.input_of(e, env, gen)
+            if tok_ is not None and tok_[0] in ("tok", "v") and not b.is_cur(tok_):
+                # a parser applied, in result position, to something other than the current input
+                return self.apply_result_expr(e, env, gen, b, rem_wild=False)
             return self.apply_call(e, env, gen, b)
         if k == "mcall":
             nm = e.get("path", "")
@@ -1476,9 +1558,9 @@ class Ev:
                 return b.peek(lambda nb: self.eval_result_block(e, env, gen, nb))
             return self.eval_result_block(e, env, gen, b)
         if tok[0] == "tok":
-            if tok[1] in b.hist:
+            if b.seen_tok(tok[1]):
                 self.anomalies.append(("REGION-USE", "parser applied to an earlier input position (re-reads consumed bytes)", short_loc(e.get("loc"))))
-                b.steps.append(["rewind", len(b.hist) - b.hist.index(tok[1])])
+                b.steps.append(["rewind", len(b.hist) - b.hist.index(tok[1]) if tok[1] in b.hist else 0])
                 return self.eval_result_block(e, self.env_retok(env, tok, cur), gen, b)
             self.anomalies.append(("REGION-USE", "parser applied to the input of an enclosing scope instead of the current region", short_loc(e.get("loc"))))
             return b.opaque("foreign input token")
